@@ -12,6 +12,11 @@ Ltac zc :=
          | |- context [Z.ltb ?a ?b] => destruct (Z.ltb_spec a b)
          | |- context [Z.gtb ?a ?b] => rewrite (Z.gtb_ltb a b)
          | |- context [Z.geb ?a ?b] => rewrite (Z.geb_leb a b)
+         | H : context [Z.eqb ?a ?b] |- _ => destruct (Z.eqb_spec a b)
+         | H : context [Z.leb ?a ?b] |- _ => destruct (Z.leb_spec a b)
+         | H : context [Z.ltb ?a ?b] |- _ => destruct (Z.ltb_spec a b)
+         | H : context [Z.gtb ?a ?b] |- _ => rewrite (Z.gtb_ltb a b) in H
+         | H : context [Z.geb ?a ?b] |- _ => rewrite (Z.geb_leb a b) in H
          end.
 
 (* the seven cells of a cpar against the regenerated bounds, as arithmetic *)
@@ -62,30 +67,47 @@ Proof.
   destruct ((s <=? _) && (d <=? _)); [|lia]. zc; lia.
 Qed.
 
+(* relations between the regenerated constants the adjustment relies on (re-checked on every run; the proofs below use
+   only these, not the numeric values) *)
+Lemma adjust_constants :
+  1 <= z_ZSTD_HASHLOG_MIN /\ z_ZSTD_HASHLOG_MIN <= z_ZSTD_WINDOWLOG_MIN /\ z_ZSTD_WINDOWLOG_MAX <= 31
+  /\ z_ZSTD_WINDOWLOG_MIN <= z_ZSTD_WINDOWLOG_ABSOLUTEMIN <= z_ZSTD_WINDOWLOG_MAX
+  /\ z_ZSTD_CHAINLOG_MIN <= z_ZSTD_HASHLOG_MIN
+  /\ z_ZSTD_HASHLOG_MIN <= 32 - z_ZSTD_SHORT_CACHE_TAG_BITS /\ z_ZSTD_CHAINLOG_MIN <= 32 - z_ZSTD_SHORT_CACHE_TAG_BITS
+  /\ z_ZSTD_HASHLOG_MIN <= 32 - z_ZSTD_ROW_HASH_TAG_BITS + 4
+  /\ cbounds C_windowLog = Some (z_ZSTD_WINDOWLOG_MIN, z_ZSTD_WINDOWLOG_MAX)
+  /\ cbounds C_chainLog = Some (z_ZSTD_CHAINLOG_MIN, z_ZSTD_CHAINLOG_MAX)
+  /\ cbounds C_hashLog = Some (z_ZSTD_HASHLOG_MIN, z_ZSTD_HASHLOG_MAX).
+Proof. vm_compute. repeat split; discriminate. Qed.
+
 (* dictAndWindowLog for a realistic dictionary size (no U64 wrap of dictSize + windowSize) *)
 Lemma dict_and_window_log_range : forall wl s d,
   z_ZSTD_HASHLOG_MIN <= wl <= z_ZSTD_WINDOWLOG_MAX -> 0 <= d < 2 ^ 63 ->
   z_ZSTD_HASHLOG_MIN <= dict_and_window_log wl s d <= z_ZSTD_WINDOWLOG_MAX.
 Proof.
   intros wl s d Hwl Hd. unfold dict_and_window_log, highbit32. cbv zeta.
+  destruct adjust_constants as (Hm1 & _ & HM31 & _).
+  set (m := z_ZSTD_HASHLOG_MIN) in *. set (M := z_ZSTD_WINDOWLOG_MAX) in *.
   destruct (Z.eqb_spec d 0); [lia|].
   rewrite Z.geb_leb. destruct (Z.leb_spec (u64 (d + s)) (2 ^ wl)); [lia|].
-  rewrite Z.geb_leb. destruct (Z.leb_spec (2 ^ z_ZSTD_WINDOWLOG_MAX) (u64 (d + 2 ^ wl))) as [Hb|Hb]; [lia|].
-  assert (Hmax : z_ZSTD_WINDOWLOG_MAX = 31) by reflexivity. assert (Hmin : z_ZSTD_HASHLOG_MIN = 6) by reflexivity.
-  rewrite Hmax, Hmin in *.
-  assert (Hp : 2 ^ 6 <= 2 ^ wl <= 2 ^ 31) by (split; apply Z.pow_le_mono_r; lia).
+  rewrite Z.geb_leb. destruct (Z.leb_spec (2 ^ M) (u64 (d + 2 ^ wl))) as [Hb|Hb]; [lia|].
+  assert (Hp1 : 2 ^ m <= 2 ^ wl) by (apply Z.pow_le_mono_r; lia).
+  assert (Hp2 : 2 ^ wl <= 2 ^ M) by (apply Z.pow_le_mono_r; lia).
+  assert (Hp3 : 2 ^ M <= 2 ^ 31) by (apply Z.pow_le_mono_r; lia).
+  assert (Hp4 : 2 <= 2 ^ m) by (change 2 with (2 ^ 1) at 1; apply Z.pow_le_mono_r; lia).
+  assert (E31 : 2 ^ 31 = 2147483648) by reflexivity. assert (E63 : 2 ^ 63 = 9223372036854775808) by reflexivity.
   assert (E64 : u64 (d + 2 ^ wl) = d + 2 ^ wl).
-  { unfold u64. apply Z.mod_small. change (2 ^ 64) with (2 * 2 ^ 63). change (2 ^ 31) with 2147483648 in Hp.
-    change (2 ^ 63) with 9223372036854775808 in *. lia. }
+  { unfold u64. apply Z.mod_small. change (2 ^ 64) with 18446744073709551616. lia. }
   rewrite E64 in *.
   assert (E32 : u32 (d + 2 ^ wl) = d + 2 ^ wl).
-  { unfold u32. apply Z.mod_small. change (2 ^ 32) with (2 * 2 ^ 31). change (2 ^ 6) with 64 in Hp. lia. }
+  { unfold u32. apply Z.mod_small. change (2 ^ 32) with 4294967296. lia. }
   rewrite E32.
   assert (E32' : u32 (d + 2 ^ wl - 1) = d + 2 ^ wl - 1).
-  { unfold u32. apply Z.mod_small. change (2 ^ 32) with (2 * 2 ^ 31). change (2 ^ 6) with 64 in Hp. lia. }
+  { unfold u32. apply Z.mod_small. change (2 ^ 32) with 4294967296. lia. }
   rewrite E32'.
-  pose proof (log2_lower 6 (d + 2 ^ wl - 1)) as L1. pose proof (log2_upper 31 (d + 2 ^ wl - 1)) as L2.
-  change (2 ^ 6) with 64 in *. lia.
+  assert (L1 : m <= Z.log2 (d + 2 ^ wl - 1)) by (apply log2_lower; lia).
+  assert (L2 : Z.log2 (d + 2 ^ wl - 1) < M) by (apply log2_upper; lia).
+  lia.
 Qed.
 
 Section Adjust.
@@ -97,32 +119,28 @@ Section Adjust.
   Proof.
     destruct Hbox as (Hw & Hc & Hh & Hs & Hm & Ht & Hst). revert Hw Hc Hh Hs Hm Ht Hst.
     unfold in_box, adjust_cparams. cbv zeta. cbn [wlog clog hlog slog mmatch tlen strat].
-    replace (cbounds C_windowLog) with (Some (z_ZSTD_WINDOWLOG_MIN, z_ZSTD_WINDOWLOG_MAX)) by (vm_compute; reflexivity).
-    replace (cbounds C_chainLog) with (Some (z_ZSTD_CHAINLOG_MIN, z_ZSTD_CHAINLOG_MAX)) by (vm_compute; reflexivity).
-    replace (cbounds C_hashLog) with (Some (z_ZSTD_HASHLOG_MIN, z_ZSTD_HASHLOG_MAX)) by (vm_compute; reflexivity).
+    destruct adjust_constants as (A1 & A2 & A3 & A4 & A5 & A6 & A7 & A8 & B1 & B2 & B3).
+    rewrite B1, B2, B3.
     intros Hw Hc Hh Hs Hm Ht Hst.
     set (src := adj_src mode srcSize dictSize). set (dic := adj_dict mode dictSize).
     assert (Hdic : 0 <= dic < 2 ^ 63) by (unfold dic, adj_dict; destruct (mode =? _); [split; [lia | reflexivity] | exact Hdict]).
-    assert (K : z_ZSTD_HASHLOG_MIN = 6 /\ z_ZSTD_HASHLOG_MAX = 30 /\ z_ZSTD_CHAINLOG_MIN = 6 /\ z_ZSTD_CHAINLOG_MAX = 30
-                /\ z_ZSTD_WINDOWLOG_MIN = 10 /\ z_ZSTD_WINDOWLOG_MAX = 31 /\ z_ZSTD_WINDOWLOG_ABSOLUTEMIN = 10
-                /\ z_ZSTD_SHORT_CACHE_TAG_BITS = 8 /\ z_ZSTD_ROW_HASH_TAG_BITS = 8) by (repeat split; reflexivity).
-    destruct K as (K1 & K2 & K3 & K4 & K5 & K6 & K7 & K8 & K9).
-    pose proof (adj_wl1_range (wlog c) src dic) as W1. rewrite K1 in W1.
-    assert (W1' : 6 <= adj_wl1 (wlog c) src dic <= wlog c) by (apply W1; lia). clear W1.
-    pose proof (dict_and_window_log_range (adj_wl1 (wlog c) src dic) src dic) as DW. rewrite K1, K6 in DW.
-    assert (DW' : 6 <= dict_and_window_log (adj_wl1 (wlog c) src dic) src dic <= 31) by (apply DW; [lia | exact Hdic]). clear DW.
+    pose proof (adj_wl1_range (wlog c) src dic) as W1.
+    assert (W1' : z_ZSTD_HASHLOG_MIN <= adj_wl1 (wlog c) src dic <= wlog c) by (apply W1; lia). clear W1.
+    pose proof (dict_and_window_log_range (adj_wl1 (wlog c) src dic) src dic) as DW.
+    assert (DW' : z_ZSTD_HASHLOG_MIN <= dict_and_window_log (adj_wl1 (wlog c) src dic) src dic <= z_ZSTD_WINDOWLOG_MAX)
+      by (apply DW; [lia | exact Hdic]). clear DW.
     set (wl1 := adj_wl1 (wlog c) src dic) in *. set (dawl := dict_and_window_log wl1 src dic) in *.
     hnf in Hs, Hm, Ht, Hst.
     repeat split; try lia.
-    - unfold adj_wl2. rewrite K7. zc; lia.
-    - unfold adj_wl2. rewrite K7. zc; lia.
-    - (* chainLog, lower *) unfold adj_tag, adj_cl1, cycle_log. cbv zeta. fold dawl. rewrite K8.
+    - unfold adj_wl2. zc; lia.
+    - unfold adj_wl2. zc; lia.
+    - (* chainLog, lower *) unfold adj_tag, adj_cl1, cycle_log. cbv zeta. fold dawl.
       destruct (strat c >=? z_ZSTD_btlazy2); destruct (_ && _); destruct (negb _); zc; lia.
-    - unfold adj_tag, adj_cl1, cycle_log. cbv zeta. fold dawl. rewrite K8.
+    - unfold adj_tag, adj_cl1, cycle_log. cbv zeta. fold dawl.
       destruct (strat c >=? z_ZSTD_btlazy2); destruct (_ && _); destruct (negb _); zc; lia.
-    - (* hashLog, lower *) unfold adj_row, adj_tag, adj_hl1, bounded. cbv zeta. fold dawl. rewrite K8, K9.
+    - (* hashLog, lower *) unfold adj_row, adj_tag, adj_hl1, bounded. cbv zeta. fold dawl.
       destruct (row_matchfinder_used _ _); destruct (_ && _); destruct (negb _); zc; lia.
-    - unfold adj_row, adj_tag, adj_hl1, bounded. cbv zeta. fold dawl. rewrite K8, K9.
+    - unfold adj_row, adj_tag, adj_hl1, bounded. cbv zeta. fold dawl.
       destruct (row_matchfinder_used _ _); destruct (_ && _); destruct (negb _); zc; lia.
   Qed.
 End Adjust.
@@ -169,13 +187,13 @@ Proof.
   apply nth_In. rewrite Hlen. lia.
 Qed.
 
-Lemma in_box_set_tlen : forall c t, in_box c -> 0 <= t <= 131072 ->
+Lemma in_box_set_tlen : forall c t, in_box c -> 0 <= t <= - z_minCLevel ->
   in_box (mkCP (wlog c) (clog c) (hlog c) (slog c) (mmatch c) t (strat c)).
 Proof.
   intros c t (H1 & H2 & H3 & H4 & H5 & H6 & H7) Ht. unfold in_box. cbn [wlog clog hlog slog mmatch tlen strat].
   split; [exact H1|]. split; [exact H2|]. split; [exact H3|]. split; [exact H4|]. split; [exact H5|]. split; [|exact H7].
   replace (cbounds C_targetLength) with (Some (z_ZSTD_TARGETLENGTH_MIN, z_ZSTD_TARGETLENGTH_MAX)) by (vm_compute; reflexivity).
-  cbv beta iota. assert (z_ZSTD_TARGETLENGTH_MIN <= 0 /\ 131072 <= z_ZSTD_TARGETLENGTH_MAX) by (vm_compute; split; discriminate). lia.
+  cbv beta iota. assert (z_ZSTD_TARGETLENGTH_MIN <= 0 /\ - z_minCLevel <= z_ZSTD_TARGETLENGTH_MAX) by (vm_compute; split; discriminate). lia.
 Qed.
 
 (* T: ZSTD_getCParams_internal is within bounds for EVERY level (any int), source size hint, dictionary size, mode *)
@@ -193,7 +211,7 @@ Proof.
   apply cparams_adjust_in_bounds_l; [|exact Hd].
   destruct (Z.ltb_spec level 0) as [Hneg|Hpos]; [|exact Hrow].
   apply check_cparams_iff in Hrow. apply check_cparams_iff.
-  apply in_box_set_tlen; [exact Hrow|]. unfold z_minCLevel. lia.
+  apply in_box_set_tlen; [exact Hrow|]. assert (z_minCLevel <= 0) by (vm_compute; discriminate). lia.
 Qed.
 
 Lemma getCParams_public_in_bounds_l : forall level srcSizeHint dictSize, 0 <= dictSize < 2 ^ 63 ->
